@@ -32,6 +32,9 @@ func init() {
 			{ID: "C11.9", Desc: "a missing or invalid Date is repaired for every origin response, with the UTC time (the Age emitted later is computed from it)", Run: func(c *Ctx) { ruleDateRepair(c, "C11.9") }, MinSites: 1},
 			{ID: "C11.10", Desc: "the Age value is the first member of the field", Run: func(c *Ctx) { ruleAgeFirstMember(c, "C11.10") }, MinSites: 1},
 			{ID: "C11.11", Desc: "an Age too large to represent saturates instead of being dropped", Run: func(c *Ctx) { ruleSaturation(c, "C11.11") }, MinSites: 2},
+			{ID: "C11.12", Desc: "header dates are decoded leniently everywhere (an obsolete-format Date is not a missing Date)", Run: func(c *Ctx) { ruleDatesThroughTheDecoder(c, "C11.12") }, MinSites: 1},
+			{ID: "C11.13", Desc: "the 304 merge carries the 304's Age (only framing fields are withheld)", Run: func(c *Ctx) { ruleMergeFilter(c, "C11.13") }, MinSites: 1},
+			{ID: "C11.14", Desc: "the times an age is computed from are read with their errors checked", Run: func(c *Ctx) { ruleMetaTimesChecked(c, "C11.14") }, MinSites: 1},
 		},
 	})
 }
